@@ -24,6 +24,8 @@ type Mutant struct {
 	New  string
 	Nth  int    // 0: Old must be unique; k>0: replace the k-th occurrence
 	More []Edit // further unique replacements in the same file
+	// Benign marks a behaviour-preserving edit: no check may report anything new on it.
+	Benign bool
 }
 
 // Edit is one additional textual replacement of a mutant.
@@ -74,6 +76,7 @@ func mutantOverlay(repo, name string) (map[string][]byte, error) {
 }
 
 type mutantResult struct {
+	Benign   bool     `json:"benign,omitempty"`
 	Name     string   `json:"mutant"`
 	Rule     string   `json:"expected_rule"`
 	Outcome  string   `json:"outcome"` // caught | missed | skipped
@@ -88,6 +91,10 @@ func runMutants(repo, verif, prop string) []mutantResult {
 	}
 	var ms []Mutant
 	for _, m := range allMutants() {
+		if m.Benign {
+			ms = append(ms, m)
+			continue
+		}
 		for _, p := range strings.Split(m.Prop, ",") {
 			if p == prop {
 				ms = append(ms, m)
@@ -105,7 +112,7 @@ func runMutants(repo, verif, prop string) []mutantResult {
 			defer func() { <-sem }()
 			cmd := exec.Command(self, "-repo", repo, "-verif", verif, "-property", prop, "-mutant", m.Name, "-no-evidence")
 			out, _ := cmd.CombinedOutput()
-			r := mutantResult{Name: m.Name, Rule: m.Rule}
+			r := mutantResult{Name: m.Name, Rule: m.Rule, Benign: m.Benign}
 			switch {
 			case strings.Contains(string(out), "MUTANT-SKIP"):
 				r.Outcome = "skipped"
@@ -152,6 +159,7 @@ func thoroughExtras(repo, verif, prop string, c *Checker) map[string]any {
 	}
 	res := runMutants(repo, verif, prop)
 	caught, missed, skipped := 0, 0, 0
+	falseAlarms, quiet := 0, 0
 	for i := range res {
 		if res[i].Outcome == "caught" {
 			var fresh []string
@@ -169,6 +177,17 @@ func thoroughExtras(repo, verif, prop string, c *Checker) map[string]any {
 				res[i].Outcome = "missed"
 			}
 		}
+		if res[i].Benign {
+			switch res[i].Outcome {
+			case "caught":
+				res[i].Outcome = "FALSE-ALARM"
+				falseAlarms++
+			case "missed":
+				res[i].Outcome = "quiet"
+				quiet++
+			}
+			continue
+		}
 		switch res[i].Outcome {
 		case "caught":
 			caught++
@@ -178,16 +197,17 @@ func thoroughExtras(repo, verif, prop string, c *Checker) map[string]any {
 			skipped++
 		}
 	}
-	fmt.Printf("sensitivity (advisory): %d mutants, %d caught, %d missed, %d skipped\n", len(res), caught, missed, skipped)
+	fmt.Printf("sensitivity (advisory): %d breaking mutants, %d caught, %d missed, %d skipped; %d benign edits, %d quiet, %d false alarms\n", len(res)-quiet-falseAlarms, caught, missed, skipped, quiet+falseAlarms, quiet, falseAlarms)
 	for _, r := range res {
-		if r.Outcome != "caught" {
+		if r.Outcome != "caught" && r.Outcome != "quiet" {
 			fmt.Printf("  mutant %s: %s (expected rule %s)\n", r.Name, r.Outcome, r.Rule)
 		}
 	}
 	return map[string]any{
 		"sensitivity": map[string]any{
 			"note":    "frozen single-site mutants applied in memory to the current tree; advisory, never changes the exit code",
-			"mutants": len(res), "caught": caught, "missed": missed, "skipped": skipped,
+			"mutants": len(res) - quiet - falseAlarms, "caught": caught, "missed": missed, "skipped": skipped,
+			"benign_edits": quiet + falseAlarms, "benign_quiet": quiet, "benign_false_alarms": falseAlarms,
 			"results": res,
 		},
 	}
@@ -250,6 +270,9 @@ func explainReplay(repo, verif, path string) int {
 func runSelftest(repo, verif, prop string) int {
 	props := map[string]bool{}
 	for _, m := range allMutants() {
+		if m.Benign {
+			continue
+		}
 		for _, p := range strings.Split(m.Prop, ",") {
 			if prop == "" || prop == p {
 				props[p] = true
@@ -295,6 +318,14 @@ func runSelftest(repo, verif, prop string) int {
 			}
 			if out == "caught" && len(fresh) == 0 {
 				out = "missed"
+			}
+			if r.Benign {
+				if out == "caught" {
+					out = "FALSE-ALARM"
+					missed++
+				} else if out == "missed" {
+					continue // quiet, as it must be
+				}
 			}
 			if out == "missed" {
 				missed++
